@@ -170,8 +170,8 @@ pub fn all_cells(req_a: &str, req_b: &str) -> Vec<Cell> {
     let mut out = Vec::new();
     let flags: Vec<(Option<String>, bool)> = vec![(None, false), (Some(req_a.into()), false), (None, true), (Some(req_b.into()), true)];
     for (req, ns) in &flags {
-        for peer in ["P1-ok", "P1s-slow-reader", "P2-stderr-exit1", "P2b-long-stderr-exit1", "P3-stderr-exit0", "P4-silent-exit1", "P0-lua-absent"] {
-            if (peer == "P1s-slow-reader" || peer == "P0-lua-absent") && (req.is_some() || *ns) {
+        for peer in ["P1-ok", "P1s-slow-reader", "P2-stderr-exit1", "P2b-long-stderr-exit1", "P3-stderr-exit0", "P4-silent-exit1", "P5-fails-without-reading", "P0-lua-absent"] {
+            if (peer == "P1s-slow-reader" || peer == "P0-lua-absent" || peer == "P5-fails-without-reading") && (req.is_some() || *ns) {
                 continue;
             }
             out.push(Cell { mode: "run".into(), require: req.clone(), no_std: *ns, target: String::new(), peer: peer.into(), input: "present".into(), spelling: "absolute".into(), fault: None });
@@ -465,7 +465,7 @@ impl Runner {
                 long_err = t;
                 (long_err.as_str(), 1)
             }
-            "P2-stderr-exit1" => ("lua: stdin:1: attempt to call a nil value (global 'zz')\nstack traceback:\n\t[C]: in ?\n", 1),
+            "P2-stderr-exit1" | "P5-fails-without-reading" => ("lua: stdin:1: attempt to call a nil value (global 'zz')\nstack traceback:\n\t[C]: in ?\n", 1),
             "P3-stderr-exit0" => ("lua: stdin:7: Assert failed!\n", 0),
             "P4-silent-exit1" => ("", 1),
             _ => ("", 0),
@@ -485,6 +485,7 @@ impl Runner {
             .env_clear()
             .env("PATH", if cell.peer == "P0-lua-absent" { "/nonexistent-directory" } else { self.path_env.as_str() })
             .env("SYLT_SIM_LUA_DELAY_MS", if cell.peer == "P1s-slow-reader" { "120" } else { "0" })
+            .env("SYLT_SIM_LUA_MODE", if cell.peer == "P5-fails-without-reading" { "nodrain" } else { "drain" })
             .env("HOME", root)
             .env("SYLT_SIM_LUA_CAPTURE", &capture)
             .env("SYLT_SIM_LUA_STDERR", stderr_text)
@@ -687,7 +688,7 @@ pub fn judge(cell: &Cell, exp: &Expected, obs: &ProcObs, root: &str, preamble: &
         }
     }
     if exp.accepted && cell.mode == "run" && !peer_ok {
-        let text = if cell.peer.starts_with("P2b") { "in function <stdin:2499>" } else if cell.peer.starts_with("P2") { "attempt to call a nil value" } else { "Assert failed!" };
+        let text = if cell.peer.starts_with("P2b") { "in function <stdin:2499>" } else if cell.peer.starts_with("P2") || cell.peer.starts_with("P5") { "attempt to call a nil value" } else { "Assert failed!" };
         if !all_out.contains(text) {
             vs.push(v("errors-not-printed", "lua-stderr", format!("[{}] lua's error text is not in the output", label)));
         }
@@ -756,8 +757,8 @@ pub fn judge(cell: &Cell, exp: &Expected, obs: &ProcObs, root: &str, preamble: &
         }
     }
 
-    // B5 run mode feeds the same program
-    if cell.mode == "run" {
+    // B5 run mode feeds the same program (unless the peer chose not to read it)
+    if cell.mode == "run" && cell.peer != "P5-fails-without-reading" {
         match &obs.peer_stdin {
             Some(b) => {
                 if exp.accepted && *b != exp.bytes {
@@ -1128,6 +1129,8 @@ pub fn replay(doc: &J, id: &str) -> i32 {
     let code;
     if prop == "C16" {
         code = replay_c16(doc, &prog, &runner, id);
+    } else if prop == "C12" {
+        code = replay_c12_process(doc, &prog, &runner, id);
     } else if prop == "C07" {
         let root = runner.layout(&prog, "p", false);
         let cell = Cell::from_json(lb.get("cell").unwrap_or(&J::obj()));
@@ -1399,7 +1402,13 @@ pub fn run_c07_processes(tier: &str, batch_seed: u64) -> LayerBResult {
                     *result.lock().unwrap().4.entry(format!("syscall fault {}", f.label())).or_insert(0) += 1;
                 }
                 let spelling = if fault.is_some() { "absolute" } else { spelling };
-                let cell = Cell { mode: "file".into(), require: None, no_std, target: "O1-absent".into(), peer: String::new(), input: "present".into(), spelling: spelling.into(), fault };
+                // every eighth program is *run*: the driver's dialogue with its peer must terminate too
+                let (mode, target, peer) = if i % 8 == 5 {
+                    ("run", "", ["P2b-long-stderr-exit1", "P5-fails-without-reading", "P1s-slow-reader", "P1-ok"][((i / 8) % 4) as usize])
+                } else {
+                    ("file", "O1-absent", "")
+                };
+                let cell = Cell { mode: mode.into(), require: None, no_std, target: target.into(), peer: peer.into(), input: "present".into(), spelling: spelling.into(), fault };
                 let obs = runner.run_cell(&prog, &cell, &root, &[]);
                 let mut verdict = judge_c07_process(&obs);
                 let strict = prog.files.values().map(|t| gen::nesting_depth_strict(t)).max().unwrap_or(0);
@@ -1526,4 +1535,137 @@ pub fn minimise_c07_process_doc(doc: &J, id: &str, budget: usize) -> J {
     d.put("minimised", J::Bool(true));
     d.put("minimiser_executions", J::u(used as u64));
     d
+}
+
+// ------------------------------------------------------------------------------------
+// C12 at the process level: generated projects through the real file reader (`sylt::read_file`),
+// with module files that are symbolic links and with the main file named in four ways
+
+pub fn run_c12_processes(tier: &str, batch_seed: u64) -> LayerBResult {
+    let n_programs: u64 = std::env::var("SYLT_SIM_C12_PROGRAMS").ok().and_then(|v| v.parse().ok()).unwrap_or(if tier == "quick" { 400 } else { 20_000 });
+    if !Path::new(&sylt_bin()).exists() {
+        let mut cov = J::obj();
+        cov.put("harness.layer_b_binary_missing", J::u(1));
+        return LayerBResult { coverage: cov, violations: vec![("harness/layer-b-binary-missing".into(), J::obj().set("clause", J::s("harness")).set("class", J::s("layer-b-binary-missing")).set("detail", J::s("sylt binary not built")), 1)] };
+    }
+    let t0 = Instant::now();
+    // (programs, accepted as expected, rejected as expected, symlinked, violations)
+    let result: Arc<Mutex<(u64, u64, u64, u64, BTreeMap<String, (J, u64)>)>> = Arc::new(Mutex::new((0, 0, 0, 0, BTreeMap::new())));
+    let threads = 16u64;
+    let mut hs = Vec::new();
+    for t in 0..threads {
+        let result = result.clone();
+        hs.push(std::thread::Builder::new().stack_size(64 << 20).spawn(move || {
+            let scratch = format!("{}/{}-c12b-t{}", crate::supervisor::scratch_base(), std::process::id(), t);
+            let _ = std::fs::create_dir_all(&scratch);
+            let runner = Runner::new(&scratch);
+            let mut i = t;
+            while i < n_programs {
+                let seed = splitmix64(batch_seed ^ tag("C12-processes") ^ splitmix64(i));
+                let (p, c) = crate::c12::build(seed);
+                let prog = Program { files: c.files.clone(), main: c.main.clone(), label: p.describe(), std_free: true };
+                let root = runner.layout(&prog, "p", false);
+                // every third project: the module files are symbolic links to files kept elsewhere
+                let symlinked = i % 3 == 1;
+                if symlinked {
+                    let vendor = format!("{}/vendor-store", root);
+                    let _ = std::fs::create_dir_all(&vendor);
+                    for (k, path) in prog.files.keys().enumerate() {
+                        if *path == prog.main && i % 2 == 0 {
+                            continue;
+                        }
+                        let real = format!("{}{}", root, path.strip_prefix(SIM_ROOT).unwrap_or(path));
+                        let stored = format!("{}/f{}.sy", vendor, k);
+                        if std::fs::rename(&real, &stored).is_ok() {
+                            let _ = std::os::unix::fs::symlink(&stored, &real);
+                        }
+                    }
+                }
+                let cell = Cell { mode: "file".into(), require: None, no_std: c.no_std, target: "O1-absent".into(), peer: String::new(), input: "present".into(), spelling: c.main_spelling.clone(), fault: None };
+                let obs = runner.run_cell(&prog, &cell, &root, &[]);
+                let want = if p.expect_ok { 0 } else { 1 };
+                let mut r = result.lock().unwrap();
+                r.0 += 1;
+                if symlinked {
+                    r.3 += 1;
+                }
+                if obs.exit == Some(want) {
+                    if want == 0 {
+                        r.1 += 1;
+                    } else {
+                        r.2 += 1;
+                    }
+                } else {
+                    let out = normalise(&root, &strip_ansi(&String::from_utf8_lossy(&obs.stdout)));
+                    let first = out.lines().find(|l| !l.trim().is_empty()).unwrap_or("").to_string();
+                    let vv = Violation {
+                        prop: "C12".into(),
+                        clause: "process-verdict".into(),
+                        class: if want == 0 { "valid-project-rejected-by-the-binary".into() } else { "invalid-reference-accepted-by-the-binary".into() },
+                        detail: format!("the sylt binary exits with {:?} on a generated project that the import rules {} (main given as {}, module files {}): {}", obs.exit, if want == 0 { "accept" } else { "reject" }, c.main_spelling, if symlinked { "are symbolic links" } else { "are regular files" }, first),
+                    };
+                    let mut doc = layer_b_doc("C12", &vv, &prog, &cell, &obs, &root, batch_seed, i);
+                    if let Some(J::Obj(mm)) = doc.get("layer_b").cloned() {
+                        let mut lb = J::Obj(mm);
+                        lb.put("symlinked", J::Bool(symlinked));
+                        lb.put("expect_exit", J::u(want as u64));
+                        lb.put("main_kept_regular", J::Bool(i % 2 == 0));
+                        doc.put("layer_b", lb);
+                    }
+                    let e = r.4.entry(vv.id()).or_insert((doc, 0));
+                    e.1 += 1;
+                }
+                drop(r);
+                i += threads;
+            }
+            let _ = std::fs::remove_dir_all(&scratch);
+        }).unwrap());
+    }
+    for h in hs {
+        let _ = h.join();
+    }
+    let r = result.lock().unwrap();
+    let cov = J::obj().set("add_evaluations", J::u(r.0)).set(
+        "process_level",
+        J::obj()
+            .set("projects", J::u(r.0))
+            .set("accepted_as_the_model_expects", J::u(r.1))
+            .set("rejected_as_the_model_expects", J::u(r.2))
+            .set("projects_with_symlinked_module_files", J::u(r.3))
+            .set("reader", J::s("the real sylt::read_file on real files, through the real binary"))
+            .set("wall_s", J::Num((t0.elapsed().as_secs_f64() * 10.0).round() / 10.0)),
+    );
+    LayerBResult { coverage: cov, violations: r.4.iter().map(|(k, (d, n))| (k.clone(), d.clone(), *n)).collect() }
+}
+
+pub fn replay_c12_process(doc: &J, prog: &Program, runner: &Runner, id: &str) -> i32 {
+    let lb = doc.get("layer_b").cloned().unwrap_or(J::obj());
+    let root = runner.layout(prog, "p", false);
+    if lb.bool_of("symlinked") {
+        let vendor = format!("{}/vendor-store", root);
+        let _ = std::fs::create_dir_all(&vendor);
+        for (k, path) in prog.files.keys().enumerate() {
+            if *path == prog.main && lb.bool_of("main_kept_regular") {
+                continue;
+            }
+            let real = format!("{}{}", root, path.strip_prefix(SIM_ROOT).unwrap_or(path));
+            let stored = format!("{}/f{}.sy", vendor, k);
+            if std::fs::rename(&real, &stored).is_ok() {
+                let _ = std::os::unix::fs::symlink(&stored, &real);
+            }
+        }
+    }
+    let cell = Cell::from_json(lb.get("cell").unwrap_or(&J::obj()));
+    let obs = runner.run_cell(prog, &cell, &root, &[]);
+    print!("{}", obs.history(&root));
+    let want = lb.u64_of("expect_exit") as i32;
+    if obs.exit != Some(want) {
+        println!("REPRODUCED {}", id);
+        println!("exit status {:?}, the import rules say {}", obs.exit, want);
+        println!("VIOLATION property=C12 replay=<this file>");
+        1
+    } else {
+        println!("NOT-REPRODUCED {}", id);
+        0
+    }
 }
